@@ -775,6 +775,12 @@ class CeiloChunk(AbstractChunk):
             raise AmpycloudError('Slicing not yet done. You cannot find groups without ' +
                                  'finding slices first !')
 
+        # If the layers already exist, refuse to proceed *before* touching anything: re-grouping
+        # would overwrite the group ids on which the layering was built.
+        if self._layers is not None:
+            raise AmpycloudError('Layering already done. If you look for groups again now, ' +
+                                 'you will loose the layering information !')
+
         # First, make sure that we can keep track of the isolation status of slices.
         self._slices['isolated'] = None
 
